@@ -87,10 +87,10 @@ add(fam("arc", arc_shapes(1), ["look", "put"]) + ["h_arc::ctor", "h_arc::s1n1011
     ARC_STEP, "quick", 3,
     "AdaptiveCache<u8,u8>: size 1, all 12 occupancies; p symbolic in 0..=size (enumerated where it steers control); "
     "one operation; keys by pattern enumeration", mem=3, quick_for=["C09"])
-add(fam("arc", ["s2n2011", "s2n1111", "s2n0211"], ["look", "put"]) + ["h_arc::s2n2022::put", "h_arc::s2n1121::put"],
+add(fam("arc", ["s2n2011", "s2n1111", "s2n0211"], ["look", "put"]),
     ARC_STEP, "quick", 3,
-    "AdaptiveCache<u8,u8>: size 2, full-cache occupancies (2,0,1,1) (1,1,1,1) (0,2,1,1) with look+put, (2,0,2,2) (1,1,2,1) put; "
-    "p enumerated 0..=2", mem=6, quick_for=["C09"])
+    "AdaptiveCache<u8,u8>: size 2, full-cache occupancies (2,0,1,1) (1,1,1,1) (0,2,1,1) with look+put; p enumerated 0..=2",
+    mem=6, quick_for=["C09"])
 add(fam("arc", arc_shapes(1), ["bulk"]), ARC_STEP, "thorough", 3, "AdaptiveCache size 1: purge from all 12 occupancies", mem=3)
 add(fam("arc", arc_shapes(2), ["look", "put"]) + fam("arc", ["s2n1122", "s2n2000", "s2n0222"], ["bulk"]), ARC_STEP, "thorough", 3,
     "AdaptiveCache<u8,u8>: size 2, all 54 occupancies; one operation; keys by pattern enumeration", mem=8, tmul=2)
